@@ -128,7 +128,23 @@ def r1_r2_r3_r5a(ctx, F):
                   're-arms it is overwritten, or the timer fires again although cancelled')
     # the deadline compared is the minimum over next_interrupts
     mk = b.calls_to('Iterator::min_by_key', 'Iterator::min_by', 'Iterator::min')
-    ctx.check(len(mk) == 1, 'C17-R5', 'earliest-deadline-first', b,
+    okmin = len(mk) == 1
+    if not mk:
+        # a hand-written minimum: a loop over the interrupts that keeps an entry when its Instant compares
+        # below the best one so far
+        from common import comparisons
+        from taint import origins
+        for (x_, y_, rel_, te_, fe_, bb_) in comparisons(b):
+            cc = b.call_at(bb_)
+            if cc is None or not cc.targs or 'Instant' not in cc.targs[0] or rel_ not in ('lt', 'le', 'gt', 'ge'):
+                continue
+            if not b.in_cycle(bb_):
+                continue
+            sides = [origins(b, a_) for a_ in cc.args[:2]]
+            if any(s_ and all(isinstance(o, tuple) and o[0] == 'proj' and o[1].is_('Iterator::next') for o in s_)
+                   for s_ in sides):
+                okmin = True
+    ctx.check(okmin, 'C17-R5', 'earliest-deadline-first', b,
               good='the next interrupt is the entry with the minimum deadline',
               bad='actor::spawn: the next interrupt is not chosen as the minimum deadline')
 
